@@ -2,14 +2,117 @@ package main
 
 import (
 	"fmt"
-	"golang.org/x/tools/go/packages"
+	"os"
+	"sort"
+	"strings"
 )
 
+func usage() {
+	fmt.Fprintln(os.Stderr, `usage:
+  govc verify <pkgdir> [func ...]      generate and discharge the obligations of functions under contract (debug)
+  govc check <Cxx> [--tier quick|thorough]
+  govc replay <file>
+  govc selftest`)
+	os.Exit(2)
+}
+
 func main() {
-	cfg := &packages.Config{Mode: packages.NeedName | packages.NeedFiles | packages.NeedSyntax | packages.NeedTypes | packages.NeedTypesInfo | packages.NeedImports, Dir: "/repo", BuildFlags: []string{"-tags=verif"}}
-	pkgs, err := packages.Load(cfg, "./lib/uu", "./internal/iobroker")
-	fmt.Println(len(pkgs), err)
-	for _, p := range pkgs {
-		fmt.Println(p.PkgPath, len(p.Syntax), p.Errors)
+	if len(os.Args) < 2 {
+		usage()
+	}
+	switch os.Args[1] {
+	case "verify":
+		cmdVerify(os.Args[2:])
+	case "check":
+		os.Exit(cmdCheck(os.Args[2:]))
+	default:
+		usage()
 	}
 }
+
+func cmdVerify(args []string) {
+	if len(args) < 1 {
+		usage()
+	}
+	verbose := os.Getenv("GOVC_V") != ""
+	w, err := loadWorld(allPkgDirs)
+	if err != nil {
+		fmt.Fprintln(os.Stderr, "load:", err)
+		os.Exit(2)
+	}
+	var u *Unit
+	for _, x := range w.Units {
+		if strings.HasSuffix(x.Pkg.PkgPath, strings.TrimPrefix(args[0], "./")) || x.Short == args[0] {
+			u = x
+		}
+	}
+	if u == nil {
+		fmt.Fprintln(os.Stderr, "no such package", args[0])
+		os.Exit(2)
+	}
+	names := args[1:]
+	if len(names) == 0 {
+		for n := range u.FSpecs {
+			if !u.FSpecs[n].Trusted {
+				names = append(names, n)
+			}
+		}
+		sort.Strings(names)
+	}
+	var exs []*Exec
+	for _, n := range names {
+		ex, err := w.verifyFunc(u, n)
+		if err != nil {
+			fmt.Println("ERROR", err)
+			continue
+		}
+		exs = append(exs, ex)
+	}
+	if len(args) == 1 && u.Specs != nil {
+		for _, l := range u.Specs.Lemmas {
+			ex, err := w.verifyLemma(l)
+			if err != nil {
+				fmt.Println("ERROR", err)
+				continue
+			}
+			exs = append(exs, ex)
+		}
+	}
+	dir, _ := os.MkdirTemp("", "govc")
+	if os.Getenv("GOVC_KEEP") == "" {
+		defer os.RemoveAll(dir)
+	} else {
+		fmt.Println("smt files in", dir)
+	}
+	dischargeAll(exs, dischargeOpts{timeoutS: 10, dir: dir, jobs: 5})
+	bad := 0
+	for _, ex := range exs {
+		for _, n := range ex.ObOrd {
+			ob := ex.Obs[n]
+			if ob.Verdict != "discharged" {
+				bad++
+			}
+			if ob.Verdict != "discharged" || verbose {
+				fmt.Printf("%-14s %-70s q=%d %s %dms %s\n", ob.Verdict, ob.Name, len(ob.Queries), ob.Solver, ob.Ms, firstLines(ob.Detail, 4))
+				if len(ob.Model) > 0 {
+					fmt.Printf("    model: %v\n", ob.Model)
+				}
+			}
+		}
+		fmt.Printf("== %s: %d obligations, paths=%d\n", ex.FName, len(ex.ObOrd), ex.paths)
+	}
+	var notes []string
+	for k := range w.Unsup {
+		notes = append(notes, "unsupported: "+k)
+	}
+	for k := range w.Abstr {
+		notes = append(notes, "abstracted: "+k)
+	}
+	sort.Strings(notes)
+	for _, n := range notes {
+		fmt.Println(n)
+	}
+	fmt.Println("undischarged:", bad)
+}
+
+var allPkgDirs = []string{"lib/uu", "internal/iobroker", "internal/hsrv", "lib/opshell", "lib/shellfuncsfile", "lib/simpleshell", "lib/sstls", "."}
